@@ -205,6 +205,12 @@ func (p *IdP) IDToken(spec CodeSpec) string {
 	case "expired":
 		claims["exp"] = now.Add(-10 * time.Minute).Unix()
 		claims["iat"] = now.Add(-20 * time.Minute).Unix()
+	case "expired_20s":
+		claims["exp"] = now.Add(-20 * time.Second).Unix()
+		claims["iat"] = now.Add(-10 * time.Minute).Unix()
+	case "expired_5s":
+		claims["exp"] = now.Add(-5 * time.Second).Unix()
+		claims["iat"] = now.Add(-10 * time.Minute).Unix()
 	case "no_username":
 		delete(claims, claim)
 	case "nonstring_username":
